@@ -50,11 +50,16 @@ def run(ck, ctx):
                       "every remaining offset of the key (a loop from the current offset to key.len() inclusive) and answers true as soon as "
                       "one offset matches; the result of a recursive call under the star arm is only ever tested, never returned as the "
                       "answer (committing to one alignment - e.g. the first occurrence of the next literal - rejects `*ab` against `aab`)")
+    ck.rule("R01.13", "type discipline: where a handler looks a key up and branches on the stored value's type, every path from the "
+                      "`some other type` edge to the return answers the WRONGTYPE error and nothing else (Redis answers WRONGTYPE for every "
+                      "typed command against a key of another type; an empty/zero/nil answer there hides the key). Re-lookups behind a "
+                      "deciding type test of the same key, TYPE-style total matches and MGET (nil by Redis semantics) are the only exceptions")
     for cfg in ctx.configs:
         prog = ctx.prog(cfg)
         ck.configs.append(cfg)
         ck.fn_count += len(prog.fns)
         _r0112(ck, prog, cfg)
+        _r0113(ck, prog, cfg, effects.executor_methods(prog))
         meths = effects.executor_methods(prog)
         _r011(ck, prog, cfg, meths)
         _r012(ck, prog, cfg, meths)
@@ -857,3 +862,148 @@ def _r0112(ck, prog, cfg):
                  % ("returns the result of one recursive attempt as its answer (line %s)" % direct[:2] if direct else
                     ("has no loop from the current offset to key.len() inclusive" if not loop_ok else "makes no recursive attempt")),
                  g.where(g.term(sb)["ln"]), detail="loop over k_idx..=key.len(), each attempt tested")
+
+
+# ------------------------------------------------------------------------------------------------
+VALUE_TY = "redis::data::value::Value"
+WT_OK_NIL = {"execute_mget": "MGET answers nil for a key that holds a non-string (Redis semantics)",
+             "execute_batch_get": "internal batched MGET: nil for a non-string, as MGET"}
+
+
+def _type_switches(f):
+    """[(block, switch-info, key id)] for switches on the variant of a stored Value reached through a keyed lookup"""
+    out = []
+    for b in sorted(f.reachable_blocks()):
+        t = f.term(b)
+        if t["k"] != "switch" or "assert" in str(t.get("x", "")):
+            continue
+        si = switch_info(f, b)
+        if not si or si["kind"] != "discr" or si.get("ty") != VALUE_TY:
+            continue
+        src = si["src"]
+        kid = None
+        if src is not None and src.kind == "call" and is_callee(src.term, r"Entry::<.*>::or_insert(_with)?$|Entry::<.*>::or_default$"):
+            src = src_of_operand(f, src.term["args"][0], through_calls=TRANSPARENT)
+        if src is not None and src.kind == "call" and src.term.get("args") and len(src.term["args"]) >= 2:
+            kid = _key_id(f, src.term["args"][1])
+        out.append((b, si, kid))
+    return out
+
+
+def _wt_verdict(f, start):
+    """may-analysis from block `start`: the set of tags the returned value can carry. 'WT' = the WRONGTYPE error."""
+    def tag_of_call(t):
+        if is_callee(t, r"RespValue::err(::<.*>)?$|RespValue::error(::<.*>)?$") and t["args"]:
+            txt = str(t["args"][0].get("c", "")) + str(t["args"][0].get("pv", ""))
+            return "WT" if "WRONGTYPE" in txt else "err:" + txt[:40]
+        return "call:" + callee(t).rsplit("::", 1)[-1] + "@%s" % t["ln"]
+    envs = {start: {}}
+    work = [start]
+    result = set()
+    it = 0
+    while work and it < 20000:
+        it += 1
+        b = work.pop()
+        env = {k: set(v) for k, v in envs[b].items()}
+        for st in f.blocks[b]["st"]:
+            lhs = st["lhs"]
+            if lhs.get("p"):
+                continue
+            rv = st["rv"]
+            if rv["k"] == "use":
+                l = op_local(rv["a"])
+                pl = op_place(rv["a"])
+                if l is not None and pl is not None and not pl.get("p"):
+                    env[lhs["l"]] = set(env.get(l, {"?"}))
+                elif pl is not None and len(pl.get("p", ())) == 1 and isinstance(pl["p"][0], dict) and "f" in pl["p"][0]:
+                    env[lhs["l"]] = set(env.get((pl["l"], pl["p"][0]["f"]), {"other@%s" % st["ln"]}))
+                elif "c" in rv["a"]:
+                    c_ = str(rv["a"]["c"]).replace("const ", "")
+                    env[lhs["l"]] = {"bool:" + c_} if c_ in ("true", "false") else {"const"}
+                else:
+                    env[lhs["l"]] = {"other@%s" % st["ln"]}
+            elif rv["k"] == "agg":
+                env[lhs["l"]] = {"%s@%s" % ((rv.get("n") or "agg").rsplit("::", 1)[-1], st["ln"])}
+                for i_, o_ in enumerate(rv.get("ops") or []):      # constant components of a tuple: `(need_create, is_wrong_type)`
+                    c_ = str(o_.get("c", "")).replace("const ", "")
+                    if c_ in ("true", "false"):
+                        env[(lhs["l"], str(i_))] = {"bool:" + c_}
+            else:
+                env[lhs["l"]] = {"other@%s" % st["ln"]}
+        t = f.term(b)
+        if t["k"] == "call" and t.get("dest") is not None and not t["dest"].get("p"):
+            env[t["dest"]["l"]] = {tag_of_call(t)}
+        if t["k"] == "return":
+            result |= env.get(0, {"?"})
+            continue
+        succs = f.succ(b)
+        if t["k"] == "switch" and t.get("dt") == "bool":
+            v = env.get(op_local(t["d"]))
+            if v in ({"bool:true"}, {"bool:false"}):          # a flag set on this path decides the branch
+                want = "1" if v == {"bool:true"} else "0"
+                succs = [lib_edge(f, b, want)]
+        for s2 in succs:
+            old = envs.get(s2)
+            if old is None:
+                envs[s2] = {k: set(v) for k, v in env.items()}
+                work.append(s2)
+            else:
+                ch = False
+                for k in set(old) | set(env):
+                    a = old.get(k, {"?"})
+                    n = a | env.get(k, {"?"})
+                    if n != a or k not in old:
+                        old[k] = n
+                        ch = True
+                if ch:
+                    work.append(s2)
+    return result
+
+
+def _r0113(ck, prog, cfg, meths):
+    n = 0
+    nvar = len((prog.adts.get(VALUE_TY) or {"variants": []})["variants"])
+    for m, f in _bodies(prog, meths):
+        sws = _type_switches(f)
+        if not sws:
+            continue
+        verdicts = {}
+        lookups = {}
+        k = 0
+        for b, si, kid in sws:
+            t = f.term(b)
+            lookups[b] = si["src"].site[0] if si["src"] is not None and si["src"].kind == "call" and si["src"].site else b
+            if nvar and len(t["cases"]) >= nvar:
+                continue                      # total match (TYPE, OBJECT ENCODING): no `other type` edge
+            res = _wt_verdict(f, t["else"])
+            verdicts[b] = (kid, res)
+        for b, si, kid in sws:
+            if b not in verdicts:
+                continue
+            res = verdicts[b][1]
+            # a re-lookup behind a deciding test of the same key: the type is already known to match when control gets here
+            decided = any(b2 != b and f.dominates(lookups[b2], b) and lookups[b2] != lookups.get(b) and verdicts[b2][0] == kid and kid is not None
+                          and verdicts[b2][1] == {"WT"} for b2 in verdicts)
+            key = "%s:other-type#%d%s" % (f.short if f.kind != "closure" else f.parent.rsplit("::", 1)[-1] + "::{closure}", k, _tag(cfg))
+            k += 1
+            if decided:
+                continue
+            n += 1
+            base = f.short if f.kind != "closure" else f.parent.rsplit("::", 1)[-1]
+            if base in WT_OK_NIL and not any(x == "WT" for x in res):
+                ck.ok("R01.13", key, detail="frozen: " + WT_OK_NIL[base])
+                continue
+            ck.check(res == {"WT"}, "R01.13", key,
+                     "the key holds a value of another type than this command works on, and the reply on that edge can be %s instead of the "
+                     "WRONGTYPE error: the command answers as if the key were absent/empty (or proceeds) where Redis refuses"
+                     % sorted(x for x in res if x != "WT")[:4], f.where(t_ln(f, b)), detail="other-type edge answers WRONGTYPE on every path")
+    ck.floor("R01.13" + _tag(cfg), n, 40)
+
+
+def lib_edge(f, b, value):
+    from .lib import edge_targets
+    return edge_targets(f, b, value)
+
+
+def t_ln(f, b):
+    return f.term(b)["ln"]
